@@ -11,6 +11,10 @@ ALLN = ALL + ("numeric", "text32")
 TXT = ("text",)
 NONNUM = ALL
 FORMS = [
+    ("snmp-server community 0 {} RO 10", ("text",)),
+    ("snmp-server vrf MGMT community 0 {} RW", ("text",)),
+    ("# previous value was {} before the change", ("jun9", "md5")),
+    ("description old key {} rotated", ("jun9", "md5")),
     # --- Cisco / Arista
     (" password 7 {}", ("type7",)),
     ("username Someone password 0 {}", TXT + ("hex",)),
